@@ -92,6 +92,16 @@ def check(run):
                          f"[{gtxt}] update changes the configured {ev.field}")
         if not full or not replaces:
             continue
+        # whatever selects this path, the slot it overwrites must be a fresh uniform draw on [0, size)
+        for rp in replaces:
+            verdict0, info0 = exact_range(rp.index, k)
+            if verdict0 is False and not draws_in(rp.index):
+                run.fail("DRAW", "G.slot", f"{s.path}:{rp.ev.line}", fq, f"slot index {ir.show_nl(rp.index)[:80]}",
+                         f"[{gtxt}] a full reservoir overwrites slot {ir.show_nl(rp.index)[:100]}, which is not drawn at "
+                         f"random: every stored observation must be equally likely to be replaced (a fixed or cycling "
+                         f"slot turns the reservoir into a sliding window)")
+        if any(exact_range(rp.index, k)[0] is False and not draws_in(rp.index) for rp in replaces):
+            continue
         # acceptance literal on this path
         acc = None
         for l in p.guards:
